@@ -206,6 +206,11 @@ def _fault_list(b):
     for j in range(0, lim + 1):
         faults.append({'cut_at': j, 'cut_kind': 'eof'})
         faults.append({'cut_at': j, 'cut_kind': 'rst'})
+    if sc['conns'][0].get('proxy'):
+        # the proxy stops talking in the middle of (or before) its answer
+        # and keeps the connection open: the connect time-out ends that
+        for j in (0, 1, 9, 17, 30):
+            faults.append({'cut_at': j, 'cut_kind': 'silence'})
     faults.append({'op': 'shutdown', 'kind': 'enotconn'})
     faults.append({'op': 'shutdown', 'kind': 'exc'})
     faults.append({'op': 'close', 'kind': 'raise'})
